@@ -431,6 +431,12 @@ class VM:
                 self.stat["tail_calls"] += 1
             else:
                 self.event("jump-into-function", self.funcs[t].get("name"), frm=_where(self, self.pc), to="first-function" if t == self.first_entry else "later-function")
+        elif self.entries:
+            # a plain jump never leaves the region it is in, except to an entry (tail call) - an early return that
+            # lands on another function's exit label does
+            a, b = _where(self, self.pc), _where(self, t)
+            if a != b and 0 <= t < self.n:
+                self.event("jump-into-function", b, frm=a, to="inside-main" if b == "main" else "inside-function")
 
     def _branch(self, op, o):
         rel = op.startswith("br")
